@@ -107,6 +107,88 @@ func Write(fd int, p []byte) (int, error) {
 	return n, nil
 }
 
+// Pwrite is the positional write: the bytes go to the given offset whatever was written before (bytes beyond the
+// end extend the file, a gap is zero-filled); short writes and errors are decided by the same hook as Write.
+func Pwrite(fd int, p []byte, off int64) (int, error) {
+	fs := Cur
+	h, ok := fs.fds[fd]
+	if !ok {
+		return -1, errBadF
+	}
+	n := len(p)
+	var err error
+	if fs.OnWrite != nil {
+		n, err = fs.OnWrite(h.name, len(p))
+		if n > len(p) {
+			n = len(p)
+		}
+		if n < 0 {
+			n = 0
+		}
+	}
+	data := fs.Files[h.name]
+	o := int(off)
+	if o > len(data) {
+		data = append(data, make([]byte, o-len(data))...)
+	}
+	if o+n <= len(data) {
+		copy(data[o:o+n], p[:n])
+	} else {
+		data = append(data[:o:o], p[:n]...)
+	}
+	fs.Files[h.name] = data
+	fs.Writes = append(fs.Writes, h.name)
+	if err != nil {
+		return -1, err
+	}
+	return n, nil
+}
+
+// Pread is the positional read.
+func Pread(fd int, p []byte, off int64) (int, error) {
+	fs := Cur
+	h, ok := fs.fds[fd]
+	if !ok {
+		return -1, errBadF
+	}
+	if fs.OnRead != nil {
+		if err := fs.OnRead(h.name); err != nil {
+			return -1, err
+		}
+	}
+	data := fs.Files[h.name]
+	if int(off) >= len(data) {
+		return 0, nil
+	}
+	return copy(p, data[int(off):]), nil
+}
+
+// Fsync / Fdatasync / Ftruncate: durability calls succeed; truncation cuts or zero-extends the file.
+func Fsync(fd int) error {
+	if _, ok := Cur.fds[fd]; !ok {
+		return errBadF
+	}
+	return nil
+}
+
+func Ftruncate(fd int, length int64) error {
+	fs := Cur
+	h, ok := fs.fds[fd]
+	if !ok {
+		return errBadF
+	}
+	data := fs.Files[h.name]
+	if int(length) <= len(data) {
+		fs.Files[h.name] = data[:int(length):int(length)]
+	} else {
+		fs.Files[h.name] = append(data, make([]byte, int(length)-len(data))...)
+	}
+	return nil
+}
+
+// OpenDescriptors is the number of descriptors opened through Openat and not closed yet.
+func (fs *FS) OpenDescriptors() int { return len(fs.fds) }
+
 func Close(fd int) error {
 	if _, ok := Cur.fds[fd]; !ok {
 		return errBadF
